@@ -479,10 +479,11 @@ run_case(const Cfg& c0, vh::Rng& rng, bool fd_friendly)
   // the property's own clauses, evaluated on the implementation only
   const bool sym_w = pls || weights_symmetric(c.w);
   const bool centre0 = pls || c.w[0][0][0] == 0.F;
-  // key under which failures of this input class are reported (classes where the code is known not to satisfy the clause)
-  const std::string key_asym = (c.kind == 'Q' && !sym_w) ? "quadratic:asymmetric-weights-gradient-not-derivative" : "";
-  const std::string key_centre = (c.kind == 'Q' && sym_w && !centre0) ? "quadratic:nonzero-centre-weight-hessian-not-second-derivative" : "";
-  const std::string key_any = !key_asym.empty() ? key_asym : key_centre;
+  // key under which failures of this input class are reported: asymmetric user weights w(-d) != w(d) are accepted by set_weights()
+  // but value, gradient and Hessian functions are consistent only for symmetric weights (known finding, see known_findings.txt).
+  // Everything else (in particular a non-zero centre weight) is checked strictly.
+  const std::string key_asym = (!pls && !sym_w) ? "neighbourhood-priors:asymmetric-user-weights" : "";
+  (void)centre0;
 
   // magnitude of the terms that make up one gradient / Hessian-times-vector element (rounding errors are relative to these,
   // not to the possibly cancelling result)
@@ -675,22 +676,16 @@ run_case(const Cfg& c0, vh::Rng& rng, bool fd_friendly)
       FORBOX(b) gmax2 = std::max(gmax2, double(ndir) * 4.); // images in [0.5,2.5]: |g|^2 <= ndir*2^2
       const double cond = (c.alpha * c.alpha + 2 * gmax2) / (c.alpha * c.alpha);
       const double Pmax = std::sqrt(c.alpha * c.alpha + gmax2);
-      bool kappa_uniform = true;
-      if (c.kappa)
-        FORBOX(b) if ((*c.kappa)[z][y][x] != (*c.kappa)[b.z0][b.y0][b.x0]) kappa_uniform = false;
       FORBOX(b)
       {
-        const bool interior = x > b.x0 && x < b.x1 && y > b.y0 && y < b.y1 && (c.only2d || (z > b.z0 && z < b.z1));
         VoxP p1 = copy_of(*cur), p2 = copy_of(*cur);
         (*p1)[z][y][x] += static_cast<float>(h);
         (*p2)[z][y][x] -= static_cast<float>(h);
         const double delta = static_cast<double>((*p1)[z][y][x]) - static_cast<double>((*p2)[z][y][x]);
         const double fd = (P->compute_value(*p1) - P->compute_value(*p2)) / delta;
         const double tol = h * h / 6 * B3 + 2 * (ndir + 1) * 16 * UF * cond * Pmax * kmax * c.pf / delta + 8 * UF * std::fabs((*g0)[z][y][x]);
-        const std::string key = !kappa_uniform ? "pls:gradient-not-derivative-of-value-with-nonuniform-kappa"
-                                               : (!interior ? "pls:gradient-not-derivative-of-value-at-border-voxels" : "");
         verdict(std::fabs(fd - (*g0)[z][y][x]) <= tol, c, "gradient is the derivative of the value (central difference, voxel " + std::to_string(z) + "," + std::to_string(y) + "," + std::to_string(x) + ")",
-                (*g0)[z][y][x], fd, tol, key);
+                (*g0)[z][y][x], fd, tol);
       }
       return;
     }
@@ -709,7 +704,7 @@ run_case(const Cfg& c0, vh::Rng& rng, bool fd_friendly)
     verdict(std::fabs(s1 - s2) <= tol, c, "Hessian is symmetric: <u,Hv> = <v,Hu>", s1, s2, tol, key_asym);
     const double q = dot(*u, *Hu, b);
     if (P->is_convex())
-      verdict(q >= -tol, c, "Hessian is positive semi-definite: <u,Hu> >= 0 (is_convex())", q, 0, tol);
+      verdict(q >= -tol, c, "Hessian is positive semi-definite: <u,Hu> >= 0 (is_convex())", q, 0, tol, key_asym);
     // accumulate: output = out0 + H inp
     VoxP acc = api_htimes(*P, *cur, *v, out0.get());
     double worst = 0, wa = 0, wb_ = 0;
@@ -762,7 +757,7 @@ run_case(const Cfg& c0, vh::Rng& rng, bool fd_friendly)
       const double ge = dot(*g0, *e, b), eHe = dot(*e, *He, b);
       const double scale = std::fabs(v1) + std::fabs(v0) + absdot(*g0, *e, b) + 0.5 * absdot(*e, *He, b);
       const double tol = 64 * UF * scale;
-      verdict(std::fabs(v1 - (v0 + ge + 0.5 * eHe)) <= tol, c, "quadratic expansion value(l+e) = value(l) + <grad,e> + 1/2<e,He>", v1, v0 + ge + 0.5 * eHe, tol, key_any);
+      verdict(std::fabs(v1 - (v0 + ge + 0.5 * eHe)) <= tol, c, "quadratic expansion value(l+e) = value(l) + <grad,e> + 1/2<e,He>", v1, v0 + ge + 0.5 * eHe, tol, key_asym);
       VoxP g1 = api_grad(*P, *l1);
       double worst = 0, wa = 0, wb_ = 0;
       FORBOX(b)
@@ -776,7 +771,7 @@ run_case(const Cfg& c0, vh::Rng& rng, bool fd_friendly)
             wb_ = ex;
           }
       }
-      verdict(worst <= 1., c, "Hessian-times-vector is the directional derivative of the gradient: grad(l+e) = grad(l) + He", wa, wb_, 0, key_centre);
+      verdict(worst <= 1., c, "Hessian-times-vector is the directional derivative of the gradient: grad(l+e) = grad(l) + He", wa, wb_, 0);
       // per voxel: V(l + t e_j) = V(l) + t g_j + t^2/2 H_jj
       for (auto& rc : rows)
         {
@@ -789,7 +784,7 @@ run_case(const Cfg& c0, vh::Rng& rng, bool fd_friendly)
           const double gj = (*g0)[rc[1]][rc[2]][rc[3]], hjj = (*row)[rc[1]][rc[2]][rc[3]];
           const double sc = std::fabs(vj) + std::fabs(v0) + std::fabs(tt * gj) + 0.5 * tt * tt * std::fabs(hjj);
           verdict(std::fabs(vj - (v0 + tt * gj + 0.5 * tt * tt * hjj)) <= 64 * UF * sc, c,
-                  "per-voxel expansion value(l+t e_j) = value(l) + t grad_j + t^2/2 H_jj", vj, v0 + tt * gj + 0.5 * tt * tt * hjj, 64 * UF * sc, key_any);
+                  "per-voxel expansion value(l+t e_j) = value(l) + t grad_j + t^2/2 H_jj", vj, v0 + tt * gj + 0.5 * tt * tt * hjj, 64 * UF * sc, key_asym);
         }
     }
   else
@@ -831,7 +826,7 @@ run_case(const Cfg& c0, vh::Rng& rng, bool fd_friendly)
             }
           verdict(std::fabs(fd - (*g0)[jz][jy][jx]) <= tol, c,
                   "gradient is the derivative of the value (central difference, voxel " + std::to_string(jz) + "," + std::to_string(jy) + "," + std::to_string(jx) + ")",
-                  (*g0)[jz][jy][jx], fd, tol);
+                  (*g0)[jz][jy][jx], fd, tol, key_asym);
           // Hessian row j = d grad / d l_j
           VoxP gp = api_grad(*P, *p1), gm = api_grad(*P, *p2);
           VoxP row = api_hrow(*P, *cur, jz, jy, jx);
@@ -864,7 +859,7 @@ run_case(const Cfg& c0, vh::Rng& rng, bool fd_friendly)
                     for (int dz = wb.z0; dz <= wb.z1; ++dz)
                       for (int dy = wb.y0; dy <= wb.y1; ++dy)
                         for (int dx = wb.x0; dx <= wb.x1; ++dx)
-                          if (b.has(z + dz, y + dy, x + dx) && std::fabs((*cur)[z + dz][y + dy][x + dx] - (*cur)[z][y][x]) <= h)
+                          if (!(dz == 0 && dy == 0 && dx == 0) && b.has(z + dz, y + dy, x + dx) && std::fabs((*cur)[z + dz][y + dy][x + dx] - (*cur)[z][y][x]) <= h)
                             {
                               const double kk = c.kappa ? static_cast<double>((*c.kappa)[z][y][x]) * (*c.kappa)[z + dz][y + dy][x + dx] : 1.0;
                               const double Dk = static_cast<double>((*cur)[z][y][x]) + (*cur)[z + dz][y + dy][x + dx] - h + c.eps;
@@ -892,14 +887,16 @@ run_case(const Cfg& c0, vh::Rng& rng, bool fd_friendly)
           }
           verdict(worst <= 1., c,
                   "Hessian row is the derivative of the gradient (central difference, voxel " + std::to_string(jz) + "," + std::to_string(jy) + "," + std::to_string(jx) + ")",
-                  wa, wb_, wt);
+                  wa, wb_, wt, key_asym);
         }
     }
 }
 
 
-// The negative witnesses of lean/StirVerif/C09/Props.lean (C09_quadratic_expansion_asymmetric_weights_fails,
-// C09_quadratic_H_symmetric_asymmetric_weights_fails, C09_quadratic_expansion_nonzero_centre_fails) replayed on the implementation:
+// The concrete instances of lean/StirVerif/C09/Props.lean replayed on the implementation:
+// negative witnesses C09_quadratic_expansion_asymmetric_weights_fails, C09_quadratic_H_symmetric_asymmetric_weights_fails (asymmetric
+// weights: the clause must FAIL on the code exactly as in Lean, reported under the known-finding key) and the positive instance
+// C09_nonzero_centre_weight_is_covered (symmetric weights with centre weight 2: the clause must HOLD, strict).
 // 1x1x2 image l = (3,1), e = (1,0), penalisation factor 1, no kappa, weights on the offsets x in {-1,0,1}.
 static void
 replay_witnesses()
@@ -941,11 +938,12 @@ replay_witnesses()
       VoxP He = api_htimes(*P, *l, *e, nullptr);
       const double ge = dot(*g, *e, c.b), eHe = dot(*e, *He, c.b);
       // the numbers of the Lean witnesses
-      const double Lv1 = which == 0 ? 2.25 : 4.5, Lv0 = which == 0 ? 1. : 2., Lge = 2., LeHe = which == 0 ? 1. : 3.;
-      verdict(v1 == Lv1 && v0 == Lv0 && ge == Lge && eHe == LeHe, c, "the implementation reproduces the numbers of the Lean negative witness", v1, Lv1, 0);
-      verdict(v1 == v0 + ge + 0.5 * eHe, c, "quadratic expansion value(l+e) = value(l) + <grad,e> + 1/2<e,He> (Lean negative witness replayed)", v1,
-              v0 + ge + 0.5 * eHe, 0,
-              which == 0 ? "quadratic:asymmetric-weights-gradient-not-derivative" : "quadratic:nonzero-centre-weight-hessian-not-second-derivative");
+      const double Lv1 = which == 0 ? 2.25 : 4.5, Lv0 = which == 0 ? 1. : 2., Lge = 2., LeHe = 1.;
+      verdict(v1 == Lv1 && v0 == Lv0 && ge == Lge && eHe == LeHe, c, "the implementation reproduces the numbers of the Lean instance", v1, Lv1, 0);
+      verdict(v1 == v0 + ge + 0.5 * eHe, c,
+              which == 0 ? "quadratic expansion value(l+e) = value(l) + <grad,e> + 1/2<e,He> (Lean negative witness replayed)"
+                         : "quadratic expansion value(l+e) = value(l) + <grad,e> + 1/2<e,He> (non-zero centre weight, Lean instance replayed)",
+              v1, v0 + ge + 0.5 * eHe, 0, which == 0 ? "neighbourhood-priors:asymmetric-user-weights" : "");
       if (which == 0)
         {
           VoxP e0 = mk(c.b, c.sp), e1 = mk(c.b, c.sp);
@@ -955,7 +953,7 @@ replay_witnesses()
           const double a = dot(*e0, *He1, c.b), b2 = dot(*e1, *He0, c.b);
           verdict(a == -1. && b2 == 0., c, "the implementation reproduces the numbers of the Lean negative witness (Hessian symmetry)", a, -1, 0);
           verdict(a == b2, c, "Hessian is symmetric: <u,Hv> = <v,Hu> (Lean negative witness replayed)", a, b2, 0,
-                  "quadratic:asymmetric-weights-gradient-not-derivative");
+                  "neighbourhood-priors:asymmetric-user-weights");
         }
     }
 }
@@ -984,7 +982,7 @@ gen_cfg(vh::Rng& rng, char kind, int k, bool thorough)
     }
   if (kind == 'P' && k % 2 == 1)
     {
-      // PLS: the derivative clause is only claimed for strictly interior voxels: make sure there are some
+      // PLS: make sure there are strictly interior voxels as well as border voxels
       nz = rng.range(3, 5); ny = rng.range(3, 6); nx = rng.range(3, 6);
     }
   c.b.z0 = rng.range(-2, 2);
@@ -1076,7 +1074,8 @@ main(int argc, char** argv)
       for (int k = 0; k < nP; ++k)
         run_case(gen_cfg(rng, 'P', k, thorough), rng, true);
       replay_witnesses();
-      // PLS: classes of inputs on which the gradient is known not to be the derivative of the value (present for every seed)
+      // PLS: 3-D case without kappa and with a spatially varying kappa (present for every seed; the two classes of inputs on which the
+      // gradient was not the derivative of the value before the repairs C09-1 / C09-2)
       for (int k = 0; k < 2; ++k)
         {
           Cfg c = gen_cfg(rng, 'P', 1, thorough);
@@ -1092,27 +1091,31 @@ main(int argc, char** argv)
             }
           run_case(c, rng, true);
         }
-      // input classes on which the code is known not to satisfy all clauses (reported under stable keys)
-      for (int k = 0; k < 3; ++k)
-        {
-          Cfg c = gen_cfg(rng, 'Q', 4 + 2 * k, thorough);
-          c.userw = true;
-          c.wclass = "asym";
-          c.w = user_weights(rng, k == 0 ? 0 : 1, k == 0 ? 0 : 1, 1, "asym");
-          if (c.pf == 0.F)
-            c.pf = 1.F;
-          run_case(c, rng, false);
-        }
-      for (int k = 0; k < 2; ++k)
-        {
-          Cfg c = gen_cfg(rng, 'Q', 4 + 2 * k, thorough);
-          c.userw = true;
-          c.wclass = "centre";
-          c.w = user_weights(rng, 1, 1, 1, "centre");
-          if (c.pf == 0.F)
-            c.pf = 1.F;
-          run_case(c, rng, false);
-        }
+      // user weights with a non-zero centre weight (value and gradient do not depend on it, so the Hessian must not either): strict
+      const char kinds[3] = { 'Q', 'R', 'L' };
+      for (int ki = 0; ki < 3; ++ki)
+        for (int k = 0; k < 2; ++k)
+          {
+            Cfg c = gen_cfg(rng, kinds[ki], 4 + 2 * k, thorough);
+            c.userw = true;
+            c.wclass = "centre";
+            c.w = user_weights(rng, 1, 1, 1, "centre");
+            if (c.pf == 0.F)
+              c.pf = 1.F;
+            run_case(c, rng, kinds[ki] != 'Q');
+          }
+      // asymmetric user weights: the input class on which the code is known not to satisfy all clauses (reported under a stable key)
+      for (int ki = 0; ki < 3; ++ki)
+        for (int k = 0; k < (ki == 0 ? 3 : 2); ++k)
+          {
+            Cfg c = gen_cfg(rng, kinds[ki], 4 + 2 * k, thorough);
+            c.userw = true;
+            c.wclass = "asym";
+            c.w = user_weights(rng, k == 0 ? 0 : 1, k == 0 ? 0 : 1, 1, "asym");
+            if (c.pf == 0.F)
+              c.pf = 1.F;
+            run_case(c, rng, kinds[ki] != 'Q');
+          }
     }
   catch (std::exception& e)
     {
